@@ -357,8 +357,57 @@ def r186(ctx, fx):
                     "inside a segment with `pc = …` executes empty memory (BRK) and is reported ok after 0 cycles whatever its assertions say", new.where)
 
 
+def r187(ctx, fx):
+    rid = ctx.rule("R18.7", "a test sees only the bank it is defined in: assertions and traces are matched by address, and two banks may have code at the same address, "
+                   "so the test runner keeps — of the elements the code generator collected — those whose segment lies in the bank it loaded (a `retain` / `filter` over "
+                   "what remove_test_elements handed out, whose predicate compares a segment's bank), and the code generator records the segment with every element")
+    new = fx.fn(TR + "::new")
+    if new is None or not new.d.get("hir"):
+        ctx.fail_closed(rid, "TestRunner::new not found")
+        return
+    body = new.hir["body"]
+    key = "%s|elements-of-the-bank" % new.path
+    takes = [x for x in lib.hwalk(body) if x.get("k") == "mcall" and x.get("name") == "remove_test_elements"]
+    if not takes:
+        ctx.fail_closed(rid, "TestRunner::new does not take the test elements from the code generator (remove_test_elements)")
+        return
+    ok = False
+    for x in lib.hwalk(body):
+        if x.get("k") == "mcall" and x.get("name") in ("retain", "filter", "retain_mut") and x.get("args"):
+            clo = lib.strip(x["args"][0])
+            if clo.get("k") == "closure":
+                d = repr(lib.hdesc(clo["body"]))
+                mentions_bank = any((y.get("k") == "field" and y.get("name") == "bank") for y in lib.hwalk(clo["body"]))
+                compares = any(y.get("k") == "binary" and y.get("op") in ("Eq", "Ne") for y in lib.hwalk(clo["body"]))
+                by_segment = any(y.get("k") == "mcall" and y.get("name") == "segment" for y in lib.hwalk(clo["body"]))
+                if mentions_bank and compares and by_segment:
+                    ok = True
+    ctx.inst(rid, key, sample={"filtered_by_bank": ok})
+    if not ok:
+        ctx.finding(rid, key, "the test runner keeps every assertion and trace of the program, whatever bank it is in: a test runs into the `.assert` another bank has at "
+                    "the same address — it fails on an assertion that is not on its path, or passes one it never reached", new.where)
+    # the code generator records the segment
+    et = fx.fn("mos_core::codegen::CodegenContext::emit_token")
+    key = "emit_token|elements-record-their-segment"
+    n_el = 0
+    bad = 0
+    if et is not None and et.d.get("hir"):
+        for x in lib.hwalk(et.hir["body"]):
+            if x.get("k") == "struct" and str((x.get("res") or {}).get("path", "")).endswith(("codegen::Assertion", "codegen::Trace")):
+                n_el += 1
+                seg = [f_ for f_ in x["fields"] if f_["name"] == "segment"]
+                if not seg or "current_segment" not in repr(lib.hdesc(seg[0]["e"])):
+                    bad += 1
+    ctx.inst(rid, key, sample={"elements_built": n_el, "without_the_current_segment": bad})
+    if n_el < 2:
+        ctx.fail_closed(rid, "the construction of Assertion / Trace elements was not found in emit_token (%d)" % n_el)
+    elif bad:
+        ctx.finding(rid, key, "a test element is built without the segment it is assembled into: the test runner cannot tell which bank it belongs to", et.where)
+
+
 def run(ctx):
     fx = ctx.facts
+    r187(ctx, fx)
     r185(ctx, fx)
     r186(ctx, fx)
     r181(ctx, fx)
@@ -366,5 +415,5 @@ def run(ctx):
     r183(ctx, fx)
     r184(ctx, fx)
     ctx.not_decided("that the assertions evaluated are those on the executed path beyond R18.1; snapshot scoping of symbols; the emulator's instruction semantics "
-                    "(external crate emulator_6502); bank selection for the test")
+                    "(external crate emulator_6502); which bank's image is loaded")
     ctx.assume("ref/cpu_flags.json transcribes the 6502 status register layout and docs/src/guide/unit-testing.md")
